@@ -140,7 +140,25 @@ def blue_instances():
     return verdict, r2[1] + r3[1]
 
 
-LEMMAS = [('concat-distinct', concat_distinct), ('hps-fixed-point-consistency', hps_fixed_point_consistency),
+def bp_edge_calibration():
+    """C01 / C08, the calibration lemma L-cal in its local form, as a lemma over the message-step equations that pv/contracts/bpmsg.py
+    verifies on the real belief_propagation.  Fix an edge {i, j} of the junction tree with separator S and a cell s of S.  Write
+        A_i(s) = logsumexp over (i minus S) of ( pot_i + sum of the messages into i from its neighbours other than j ) (s),  A_j alike.
+    Hypotheses (each message is computed once, after all the messages it depends on - the schedule contract of C12 - from the
+    sender's belief with the reverse message divided out, and every message is absorbed once by its receiver):
+        M   m_{i->j}(s) = A_i(s),   m_{j->i}(s) = A_j(s)                              [message-step sites; Factor.__sub__ contract]
+        B   logsumexp_{i minus S}(belief_i)(s) = A_i(s) + m_{j->i}(s), and alike for j    [final belief = potential + ALL incoming messages;
+            an addend that depends on S only moves out of the logsumexp over the other attributes]
+    Conclusion: the two final beliefs have the same marginal on S.  Along the (connected) tree this makes every clique's total mass
+    the same number - the `Z_calibrated` the normalisation contract of belief_propagation is stated over.  That the hypotheses hold at
+    the end of the sweep is an induction over the message schedule (on paper); exactness of the marginals themselves is the
+    sum-product theorem, decided bounded."""
+    Ai, Aj, mij, mji = z3.Reals('A_i A_j m_ij m_ji')
+    hyps = [mij == Ai, mji == Aj]
+    return _prove(hyps, (Ai + mji) == (Aj + mij))
+
+
+LEMMAS = [('concat-distinct', concat_distinct), ('bp-edge-calibration', bp_edge_calibration), ('hps-fixed-point-consistency', hps_fixed_point_consistency),
           ('total-estimate-exact-when-noise-free', total_estimate_exact_when_noise_free), ('inverse-variance-weights-minimise-the-variance[n=2,3]', blue_instances),
           ('hps-belief-is-stationary', hps_belief_is_stationary)]
 
